@@ -187,10 +187,8 @@ def coq_obs(conf, nw, res):
 
 
 def coq_case(conf, nw, res):
-    sched = "[" + ";".join(str(w) for w in res["turns"]) + "]"
-    ev = "[" + ";".join("(%d,(%d))" % (c, v) for _, c, v in res["events"]) + "]"
-    ms = "[" + ";".join("(%d,%d)" % (w, 0 if c == 7 else 1) for w, c, _ in res["events"] if c in (7, 9)) + "]"
-    return "(%s, %s, %s, %s)" % (coq_obs(conf, nw, res), sched, ev, ms)
+    turns = "[" + ";".join("(%d,%d,%s)" % (w, c, v if v >= 0 else "(%d)" % v) for w, c, v in res["events"]) + "]"
+    return "(%s, %s)" % (coq_obs(conf, nw, res), turns)
 
 
 def run_driver(ctx, traces, explores):
@@ -282,6 +280,9 @@ def run(ctx):
                          "yields": res["yields"][:6], "final_counters": res["final"]})
         ctx.count("kind_" + conf["kind"])
         if not ok or conf["kind"] not in KINDS:
+            continue
+        if [e[0] for e in res["events"]] != res["turns"]:
+            ctx.broken.append(("correspondence:driver", "the recorded action stream is not one action per turn for Scheduler(%s)" % (conf,)))
             continue
         d = lock_discipline(res["events"])
         if d:
